@@ -14,7 +14,16 @@ import (
 
 var tables = map[string][]uint64{}
 
-func die(format string, a ...any) { fmt.Fprintf(os.Stderr, "trgen: "+format+"\n", a...); os.Exit(2) }
+// dieHook, when set, is called instead of exiting (used where a failure to translate is tolerated)
+var dieHook func()
+
+func die(format string, a ...any) {
+	if dieHook != nil {
+		dieHook()
+	}
+	fmt.Fprintf(os.Stderr, "trgen: "+format+"\n", a...)
+	os.Exit(2)
+}
 
 func parseUint(lit string) uint64 {
 	s := strings.ReplaceAll(lit, "_", "")
